@@ -170,6 +170,15 @@ def weighted_ctor_oracle(ctx):
             why = T.oracle_c09(ty, x, recs)
             if why:
                 fails.append({"property": PID, "class": "weighted-ctor", "ctor": "WeightedTreeIndex", "type": ty, "harness_line": line[:300], "what": why})
+    # float trees: NaN / negative weights must be refused by new, push and update (documented InvalidWeight); same oracle as C09
+    import c09
+    fl_lines, fl_cases = c09.float_histories(dict(ctx, tier="quick"))
+    fl_lines, fl_cases = fl_lines[:120], fl_cases[:120]
+    for line, (ty, ops), o in zip(fl_lines, fl_cases, run_harness_parallel(ctx["binary"], fl_lines)):
+        n += 1
+        why = c09.float_oracle(ty, ops, o)
+        if why:
+            fails.append({"property": PID, "class": "weighted-ctor", "ctor": "WeightedTreeIndex", "type": ty, "harness_line": line[:300], "what": why})
     return n, fails
 
 
